@@ -203,13 +203,22 @@ func vfC04WScenario(t *testing.T, plan vfC04WPlan, tr *vfh.Trace, out *vfC04WOut
 	ctx, cancel := context.WithTimeout(context.Background(), 30*time.Second)
 	defer cancel()
 	var wg sync.WaitGroup
-	var lnOnce sync.Once
+	// (not sync.Once: a second caller would wait on a mutex, which synctest does not treat as durably blocked)
+	var lnMu sync.Mutex
+	lnStarted, lnDone := false, make(chan struct{})
 	closeLn := func(why string) {
-		lnOnce.Do(func() {
-			tr.Emit("lclose_call", "why", why)
-			ln.Close()
-			tr.Emit("lclose_ret")
-		})
+		lnMu.Lock()
+		first := !lnStarted
+		lnStarted = true
+		lnMu.Unlock()
+		if !first {
+			<-lnDone
+			return
+		}
+		tr.Emit("lclose_call", "why", why)
+		ln.Close()
+		tr.Emit("lclose_ret")
+		close(lnDone)
 	}
 	var mu sync.Mutex
 	var connD, connL transport.CapableConn
@@ -230,9 +239,13 @@ func vfC04WScenario(t *testing.T, plan vfC04WPlan, tr *vfh.Trace, out *vfC04WOut
 			}})
 		case "lclose-sync": // the operation resumes only after the listener's Close has gone as far as it can
 			e.SetFault(&vfc04.Fault{Kind: "trig", K: plan.K, Trig: func() {
+				closed := make(chan struct{})
 				wg.Add(1)
-				go func() { defer wg.Done(); closeLn("race") }()
-				synctest.Wait()
+				go func() { defer wg.Done(); closeLn("race"); close(closed) }()
+				select {
+				case <-closed:
+				case <-time.After(time.Second): // Close is waiting for the very goroutine that performs this operation
+				}
 			}})
 		}
 	}
